@@ -78,6 +78,8 @@ static RunOut run_tissue(const tis::Scenario& s0, int threads, uint64_t sched_se
     tis::Scenario s = s0; s.P.output_folder_path_ = out; RunOut r; rng_reset(rng_base); sched_reset(sched_seed, sched_on);
     try {
         verif::rng_context() = 0;        // the thread-local context left over by a previous run must not leak into this one
+        // the whole run, construction of the cells included, happens in a process whose OpenMP thread count is the one under test (OMP_NUM_THREADS = threads)
+        omp_set_num_threads(threads);
         std::vector<cell_ptr> cells = tis::build_cells(s);
         tis::msolver sv(s.P, cells, threads, true, false);
         while (!sv.finished()) { sv.run_iteration(); r.iters++; }
